@@ -108,7 +108,11 @@ pub struct Sim {
 }
 
 pub fn silent_panics() {
-    std::panic::set_hook(Box::new(|_| {}));
+    // panics of the implementation are caught and recorded as observations; their default report on
+    // stderr is only noise — unless the harness itself is being debugged
+    if std::env::var_os("VERIF_LOUD_PANICS").is_none() {
+        std::panic::set_hook(Box::new(|_| {}));
+    }
 }
 
 fn status_tokens(status: &DeletionStatus, t0: Instant) -> String {
